@@ -1,7 +1,7 @@
 (* The "shared state" hypothesis of the C14 model, checked against the source:
    Gen/Globals.v is regenerated from pygopherd/**/*.py on every run. *)
 From Coq Require Import String.
-From PG Require Import Lib.Str Gen.Globals.
+From PG Require Import Lib.Str Gen.Globals Gen.ServerSite.
 Local Open Scope N_scope.
 
 Definition pair_eqb (a b : str * str) : bool := str_eqb (fst a) (fst b) && str_eqb (snd a) (snd b).
@@ -34,7 +34,32 @@ Definition mod_name (g : str * str * str) : str * str := (fst (fst g), snd g).
    2. every in-place mutation of a module-level container happens at start-up only;
    3. every modelled lazy table is really declared `global` somewhere (the model is not stale),
       starts as None, and is only ever assigned a value read from the configuration *)
+(* process-wide os state (environment, working directory, umask) written after start-up: nothing.
+   init_security's chdir belongs to initialization.initialize(). *)
+Definition process_state_startup : list (str * str * str) := [ L3 "initialization" "init_security" "chdir" ]%string.
+
+(* pygopherd/server.py: the socketserver hooks the server classes define, and every attribute of the server object
+   that is assigned anywhere -- all of it at construction/bind time, except the forking server's active_children,
+   which only the master touches.  Connections share nothing through the server object. *)
+Definition server_methods_expected : list (str * str) :=
+  [ L2 "BaseServer" "__init__"; L2 "BaseServer" "server_bind"; L2 "BaseServer" "wrap_socket";
+    L2 "ForkingTCPServer" "process_request"; L2 "GopherRequestHandler" "handle";
+    L2 "ThreadingTCPServer" "process_request_thread" ]%string.
+Definition server_writes_expected : list (str * str * str) :=
+  [ L3 "BaseServer" "__init__" "self.config"; L3 "BaseServer" "__init__" "self.context";
+    L3 "BaseServer" "server_bind" "self.server_name"; L3 "BaseServer" "server_bind" "self.server_port";
+    L3 "ForkingTCPServer" "process_request" "self.active_children";
+    L3 "ForkingTCPServer" "process_request" "self.active_children.add" ]%string.
+Definition server_class_attrs_expected : list (str * str) := [ L2 "BaseServer" "allow_reuse_address" ]%string.
+
+Definition server_site_check : bool :=
+  list_eqb pair_eqb server_methods server_methods_expected &&
+  list_eqb triple_eqb server_attr_writes server_writes_expected &&
+  list_eqb pair_eqb server_class_attrs server_class_attrs_expected &&
+  forallb (fun g => mem_triple g process_state_startup) process_state_writes.
+
 Definition shared_state_check : bool :=
+  server_site_check &&
   forallb (fun g => mem_pair (mod_name g) modelled_lazies || mem_triple g startup_only) global_statements &&
   forallb (fun g => mem_triple g startup_only) container_mutations &&
   forallb (fun m => existsb (fun g => pair_eqb (mod_name g) m) global_statements) modelled_lazies &&
